@@ -248,11 +248,18 @@ func knownFindingReproducers(c *Ctx) {
 	if res := runProgramTree(programSource(td)); !bytes.Equal(res.noLines, []byte{2, 1, 4, 11, 2, 1, 0, 0, 0, 3, 0, 0, 0}) {
 		c.Fail("nested-recover-dropped-active-panic", map[string]string{"tree": hx(encTree(td, false)), "source": programSource(td), "got": hx(res.noLines), "want": "0201040b020100000003000000", "host_panic": res.hostMsg})
 	}
-	// a deferred native function that panics: Go adds the panic to the chain (and it can be recovered)
+	// regression (fix 6756254, former finding native-defer-panic-host-panic): a deferred native
+	// function that panics: Go adds the panic to the chain (and it can be recovered), when the
+	// function returns and while another panic unwinds
 	t := []*Ins{{Tok: tDeferNat, K: 4, N: 1}}
 	c.Count("evaluations")
 	if res := runProgramTree(programSource(t)); !bytes.Equal(res.noLines, []byte{11, 1, 1, 0, 0, 0}) {
-		c.Fail("native-defer-panic-host-panic", map[string]string{"tree": hx(encTree(t, false)), "source": programSource(t), "got": hx(res.noLines), "want": "0b0101000000", "host_panic": res.hostMsg})
+		c.Fail("native-defer-panic-not-a-panic-error", map[string]string{"tree": hx(encTree(t, false)), "source": programSource(t), "got": hx(res.noLines), "want": "0b0101000000", "host_panic": res.hostMsg})
+	}
+	t = []*Ins{{Tok: tDeferFn, Body: []*Ins{{Tok: tRecover}}}, {Tok: tDeferNat, K: 4, N: 1}, {Tok: tPanic, N: 2}}
+	c.Count("evaluations")
+	if res := runProgramTree(programSource(t)); !bytes.Equal(res.noLines, []byte{2, 1, 1, 10}) {
+		c.Fail("native-defer-panic-not-a-panic-error", map[string]string{"tree": hx(encTree(t, false)), "source": programSource(t), "got": hx(res.noLines), "want": "0201010a", "host_panic": res.hostMsg})
 	}
 }
 
@@ -287,9 +294,6 @@ func registerFrames() {
 		knownFindingReproducers(c)
 		var trees [][]*Ins
 		treesFor(c, false, func(t []*Ins) {
-			if hasDeferredNativePanic(t) && c.ReplayInput() == nil {
-				return
-			}
 			trees = append(trees, t)
 		})
 		type flav struct {
@@ -341,7 +345,8 @@ func registerFrames() {
 					continue
 				}
 				for _, p := range f.res.paths {
-					if p == "" {
+					// the panic of a deferred native function has no Scriggo position
+					if p == "" && !hasDeferredNativePanic(t) {
 						c.Fail("panic-error-empty-path", map[string]string{"tree": hx(encTree(t, false)), "flavour": f.name, "source": f.src})
 						break
 					}
@@ -424,9 +429,6 @@ func outcomeCode(enc []byte) int {
 // with Go. A known signature is given only when the VM does what the model of
 // today's machine does.
 func classify(t []*Ins, equalsModel bool) string {
-	if equalsModel && hasDeferredNativePanic(t) {
-		return "native-defer-panic-host-panic"
-	}
 	return "trace-or-outcome-differs-from-go"
 }
 
@@ -471,7 +473,7 @@ func init() {
 				if err != nil || r.buildErr != "" {
 					return false
 				}
-				return "ok:"+hx(r.enc) != o[0] && !hasDeferredNativePanic(v)
+				return "ok:"+hx(r.enc) != o[0]
 			})
 			fmt.Printf("shrunk: %s\n%s", hx(encTree(small, false)), programSource(small))
 		}
